@@ -114,6 +114,14 @@ CASES = [
      ("expect", ["def G.f (self : G) (x : Nat) : Rs.M G", "{ self with log := (some (x_", "pure self"]), ("G", "f")),
     ("lock3", "pub struct G { pub log: Mutex<Option<Vec<u32>>> }\nimpl G { fn g(&self) -> Option<Vec<u32>> { let mut o = self.log.lock().unwrap(); o.take() } }",
      ("expect", ["G × (Option (List Nat))", "{ self with log := none }"]), ("G", "g")),
+    # (b1315, round 9) `let x = &mut self.f;` is a write-through alias (it used to be a copy whose writes were lost)
+    ("mutalias", "pub struct D { pub n: u32, pub v: Vec<u32> }\npub struct P { pub d: D, pub k: bool }\nimpl P { fn f(&mut self, x: u32) { let st = &mut self.d; st.n = x; st.v.push(x); } }",
+     ("expect", ["{ self with d := { self.d with n := x } }", "self.d.v ++ [x]", "self"]), ("P", "f")),
+    # (b1315, round 9) a write through an alias declared inside a branch is carried out of the branch
+    ("aliasjoin", "pub struct P { pub o: Option<Vec<u32>>, pub n: u32 }\nimpl P { fn f(&mut self, x: u32) { if self.o.is_some() { let v = self.o.as_mut().unwrap(); v.push(x); } self.n += 1; } }",
+     ("expect", ["let self ← do", "{ self with o := (some"]), ("P", "f")),
+    ("r-mutalias-index", "pub struct P { pub v: Vec<u32> }\nimpl P { fn f(&mut self) { let e = &mut self.v[0]; *e = 1; } }",
+     ("refuse", "not a field path"), ("P", "f")),
     ("vecunder", "fn f(v: &[u32]) -> usize { let w: Vec<_> = v.iter().map(|x| *x).collect(); w.len() }", ("expect", ["w.length"])),
     # (round 9) `&mut` parameter of an opaque type + declared state-updating externals (`"updates": true`)
     ("updext", "fn f(t: &mut Tx, x: u32) -> Result<u32, ()> { let n = t.add(x)?; if n > 3 { t.seal(); } Ok(n) }",
@@ -169,6 +177,7 @@ CASES = [
      ("refuse", "order the model does not know")),
     ("r-guard-write", "pub struct G { pub st: Mutex<S> }\nimpl G { fn get(&self) -> MutexGuard<'_, S> { self.st.lock().expect(\"l\") }\n fn f(&self) { let mut s = self.get(); s.a = 1; } }",
      ("refuse", "write through the MutexGuard"), ("G", "f")),
+    ("r-value-assign", "fn f(v: &mut Vec<u32>, c: bool) -> Option<u32> { let r = if c { v.push(1); None } else { Some(2) }; r }", ("refuse", "used as a value")),
     ("r-loop", "fn f() -> u32 { let mut i = 0u32; loop { i += 1; if i > 3 { break; } } i }", ("refuse", "`loop`")),
     ("r-while", "fn f(mut n: u32) -> u32 { while n > 1 { n = n / 2; } n }", ("refuse", "counted form")),
     ("r-while-bound", "fn f(v: &mut Vec<u32>) { let mut i = 0usize; while i < v.len() { v.push(1); i += 1; } }", ("refuse", "counted form")),
